@@ -7407,19 +7407,26 @@ let md_body_ok pe_ok n0 body =
         | BExp l -> negb (starts_with p_GT l)
         | BCode _ -> true))
 
+(** val lang_of : text -> text **)
+
+let lang_of lang =
+  let (a, o) = split_at_brace lang in
+  (match o with
+   | Some _ -> trim_end a
+   | None -> a)
+
 (** val lang_ok : text -> bool **)
 
 let lang_ok lang =
   (&&)
-    ((&&) (match lang with
-           | [] -> false
-           | c :: _ -> negb (N.eqb c bT))
-      (negb
-        (list_eqb
-          (let (a, o) = split_at_brace lang in
-           (match o with
-            | Some _ -> trim_end a
-            | None -> a)) sCRUT))) (no_nl lang)
+    ((&&)
+      ((&&) (match lang with
+             | [] -> false
+             | c :: _ -> negb (N.eqb c bT))
+        (negb (list_eqb (lang_of lang) sCRUT))) (no_nl lang))
+    (match lang_of lang with
+     | [] -> false
+     | _ :: _ -> true)
 
 (** val cfg_text_ok : (text -> bool) -> text -> bool **)
 
